@@ -50,8 +50,44 @@ func isBoolType(t types.Type) bool {
 // implies reports whether taking `branch` of a conditional on cond establishes the fact.
 func implies(cond ssa.Value, branch bool, a Atom) bool {
 	v, br := stripNot(cond, branch)
-	pol, ok := a(v)
-	return ok && pol == br
+	if pol, ok := a(v); ok {
+		return pol == br
+	}
+	// a module-local boolean wrapper whose body is one return of a condition ("func (c) closed() bool {
+	// return c.status(closing) != 0 }") is looked through, so introducing such a helper changes no verdict
+	for depth := 0; depth < 2; depth++ {
+		inner, ok := boolWrapperBody(v)
+		if !ok {
+			return false
+		}
+		v, br = stripNot(inner, br)
+		if pol, ok := a(v); ok {
+			return pol == br
+		}
+	}
+	return false
+}
+
+// boolWrapperBody: v is a call of a module function that consists of a single block returning one
+// boolean expression; returns that expression.
+func boolWrapperBody(v ssa.Value) (ssa.Value, bool) {
+	c, ok := v.(*ssa.Call)
+	if !ok {
+		return nil, false
+	}
+	f := c.Call.StaticCallee()
+	if f == nil || f.Blocks == nil || len(f.Blocks) != 1 || f.Pkg == nil || !isModulePkg(f.Pkg.Pkg) {
+		return nil, false
+	}
+	if f.Signature.Results().Len() != 1 || !isBoolType(f.Signature.Results().At(0).Type()) {
+		return nil, false
+	}
+	b := f.Blocks[0]
+	ret, ok := b.Instrs[len(b.Instrs)-1].(*ssa.Return)
+	if !ok || len(ret.Results) != 1 {
+		return nil, false
+	}
+	return ret.Results[0], true
 }
 
 // anyAtom is the disjunction of atoms: the fact holds if any of them is established.
